@@ -72,7 +72,7 @@ class C05(Property):
             "against the semantics, not against a particular extension); malformed invocations (unreadable or ill-formed file, unknown problem, missing -a, unknown argument, unknown reader/encoding/level, "
             "duplicate and unknown options) must exit non-zero without any answer line; `--problems` / `problems` must list exactly the 21 problems; "
             "dispatch correspondence: on frameworks that separate the semantics (no stable extension, stage != semi-stable, preferred != complete, above the hybrid threshold, random ones) every problem x "
-            "every --encoding value (and `SE-PR` literal vs recased) is run with --external-sat-solver pointing to a recording script: the DIMACS text of every SAT call must equal byte for byte the text "
+            "every --encoding value (and `SE-PR` literal vs recased) is run with --external-sat-solver pointing to a recording script: the DIMACS text of every SAT call must equal (header, and clauses up to clause and literal order) the text "
             "rendered by the composed Lean model (readProblem, dispatchSolver, dispatchEncoder, entryProg, Buffered.dimacs) replayed on the recorded replies, the printed answer must equal the model's, "
             "and is judged by the oracle as well; the problem-string parser is compared with Cli.readProblem on the 21 problems and mutations of them (case, extra / missing / doubled hyphens, blanks, swapped parts, non-ASCII look-alikes) and on random concatenations of name pieces; `crustabri check` on well- and ill-formed files of both formats (the C13 generator) must exit 0 exactly when the Lean reader model accepts the file; non-trivial = invocation on a framework with an attack")
     assumptions = ["clap 2.34 and process exit plumbing are trusted; help requests exit 0 by design and are not errors",
@@ -413,7 +413,12 @@ class C05(Property):
                     findings.append(Finding("input", None, "wrong answer printed for %s: %s | %s" % (entry, v[12:], shown[-160:]),
                                             "cli/%s-%s · %s" % (job["t"], job["sem"], v[12:]),
                                             {"cmd": shown, "stdout": results[k][1][:200], "file": open(job["cmd"][job["cmd"].index("-f") + 1]).read()}))
-            if minst != insts:
+            def canon(text):
+                # header + multiset of clauses with sorted literals: clause and literal order are not part of the contract
+                ls = [x for x in text.split("|") if x]
+                body = sorted(" ".join(sorted(x.split()[:-1], key=lambda z: (abs(int(z)), z)) + ["0"]) if x and x.split()[-1] == "0" and all(t.lstrip("-").isdigit() for t in x.split()) else x for x in ls[1:])
+                return ls[:1] + body
+            if minst != insts and [canon(x) for x in minst] != [canon(x) for x in insts]:
                 j = next((x for x in range(min(len(minst), len(insts))) if minst[x] != insts[x]), min(len(minst), len(insts)))
                 findings.append(Finding("model", None,
                                         "the SAT instances the CLI hands to the external solver differ from those of the composed Lean model (%s) at call %d of %d/%d: impl %r model %r | %s"
